@@ -1008,7 +1008,7 @@ fn parent() {
         vec![Req::Mut { persons: vec![(111, vec![112])], stream: true }, Req::Del { target: 1 }]] });
     workloads.push(Workload { key: fixed_key(10), n_setup: 2, gate_ms: 12, buffer: 2, phases: vec![
         vec![Req::Upd { target: 0, label: 121 }, Req::Nodes { labels: vec![122, 123] }, Req::Compute]] });
-    let n_random = scale(2, 40);
+    let n_random = scale(1, 40);
     for _ in 0..n_random { let np = 1 + rng.below(scale(2, 3) as u64) as usize; workloads.push(gen_workload(&mut rng, np, scale(3, 4))); }
     let par: usize = std::env::var("VERIF_C13_PAR").ok().and_then(|s| s.parse().ok()).unwrap_or(12);
 
